@@ -25,32 +25,50 @@ import (
 )
 
 // Stream `sds`: the real sds.Server (security/pkg/nodeagent/sds) on its unix socket in front of the
-// real SecretManagerClient (scripted CA that always signs with root A, recording queue); the secret
-// handler is wired to Server.OnSecretUpdate as istio-agent does.  Clients are plain gRPC SDS streams.
+// real SecretManagerClient (scripted signing CA, recording queue); the secret handler is wired to
+// Server.OnSecretUpdate as istio-agent does.  Clients are plain gRPC SDS streams.
 //
 //	case <n> sds
-//	sub <c> <w|r>     client c opens a stream and subscribes to default | ROOTCA, waits for the answer
+//	sub <c> <w|r|wr>  client c opens a stream and subscribes to default | ROOTCA | both on ONE stream
+//	unsub <c>         client c sends a request with empty resource_names (xDS unsubscribe), stream stays open
 //	drop <c>          client c closes its stream
 //	rotate            run the rotation task of the cached certificate (none if the cache is empty)
 //	firestale         run the oldest task not run yet that is not the cached certificate's
 //	bundle <letters>  UpdateConfigTrustBundle
+//	cafail <k>        the next k CA calls fail
+//	caroot <X>        from now on the CA signs with root X (a changed root must reach the ROOTCA subscribers)
 //
-// After every op the harness waits (condition, 60 s deadline) until every live subscriber of every
-// resource announced during the op has received a new response, settles 100 ms, and prints for every
-// client the number of responses and the content of the last one, plus the CA call count: "a rotation /
-// root change reaches every current subscriber, and only them".
+// After every op the harness waits (condition, 20 s deadline) until every live subscriber of every
+// resource announced during the op has received a new response (or lost its stream: a failed re-request
+// ends the stream), repeats that for callbacks caused by the re-requests, settles 100 ms, and prints for
+// every client the number of responses and the last content per resource, plus the CA call count: "a
+// rotation / root change reaches every current subscriber, and only them".
 
 const sdsSecretType = "type.googleapis.com/envoy.extensions.transport_sockets.tls.v3.Secret"
 
 type sdsClient struct {
 	id     int
-	res    string // w | r
+	res    string // subset of "wr" currently subscribed ("" after unsub)
 	cancel context.CancelFunc
 	conn   *grpc.ClientConn
+	stream sdsapi.SecretDiscoveryService_StreamSecretsClient
+	sendMu sync.Mutex // a gRPC stream allows one sender at a time (ACKs come from the receiver goroutine)
 	mu     sync.Mutex
 	n      int    // responses received
-	last   string // content of the last response
-	live   bool
+	lastW  string // last `default` content
+	lastR  string // last `ROOTCA` content
+	state  string // live | gone (closed by the client) | closed (ended by the server)
+}
+
+func (c *sdsClient) names() []string {
+	var out []string
+	if strings.Contains(c.res, "w") {
+		out = append(out, security.WorkloadKeyCertResourceName)
+	}
+	if strings.Contains(c.res, "r") {
+		out = append(out, security.RootCertReqResourceName)
+	}
+	return out
 }
 
 type sdsSUT struct {
@@ -59,17 +77,8 @@ type sdsSUT struct {
 	dir     string
 	socket  string
 	clients map[int]*sdsClient
-}
-
-func (s *sdsSUT) describe(sec *tlsv3.Secret) string {
-	if c := sec.GetTlsCertificate(); c != nil {
-		return fmt.Sprintf("key=%s,cert=%s", idTok(true, s.keyID(c.GetPrivateKey().GetInlineBytes())),
-			idTok(true, certID(c.GetCertificateChain().GetInlineBytes())))
-	}
-	if v := sec.GetValidationContext(); v != nil {
-		return "root=" + lettersOrDash(v.GetTrustedCa().GetInlineBytes())
-	}
-	return "other"
+	failN   int  // CA calls that still have to fail
+	signer  byte // current CA root
 }
 
 // the SDS socket path is relative to the working directory: servers are created one at a time (chdir,
@@ -79,8 +88,17 @@ var sdsCreate sync.Mutex
 func newSdsSUT(dir string) *sdsSUT {
 	must(os.MkdirAll(dir, 0o755))
 	base := newSUT(0.5, 0, false)
-	base.ca.next = caOutcome{kind: "ok", ttl: time.Hour, signer: 'A', bundle: "-"}
-	s := &sdsSUT{sut: base, clients: map[int]*sdsClient{}, dir: dir}
+	s := &sdsSUT{sut: base, clients: map[int]*sdsClient{}, dir: dir, signer: 'A'}
+	var scriptMu sync.Mutex
+	base.ca.script = func(int) caOutcome {
+		scriptMu.Lock()
+		defer scriptMu.Unlock()
+		if s.failN > 0 {
+			s.failN--
+			return caOutcome{kind: "signerr", signer: 'A', bundle: "-"}
+		}
+		return caOutcome{kind: "ok", ttl: time.Hour, signer: s.signer, bundle: "-"}
+	}
 	sdsCreate.Lock()
 	must(os.Chdir(dir))
 	s.srv = sds.NewServer(&security.Options{}, base.sc, nil)
@@ -91,14 +109,17 @@ func newSdsSUT(dir string) *sdsSUT {
 		base.record(name)
 		s.srv.OnSecretUpdate(name)
 	})
-	// NewServer warms the cache in the background (default, then ROOTCA): wait until that is over
-	deadline := time.Now().Add(60 * time.Second)
-	for nacache.VerifCachedWorkload(base.sc) == nil || nacache.VerifCachedRoot(base.sc) == nil {
-		if time.Now().After(deadline) {
-			panic("sds warm-up did not finish")
-		}
+	// NewServer warms the cache in the background (default, then ROOTCA).  The scenario starts from "one
+	// certificate cached, root recorded": give the warm-up a moment and otherwise do it here, so that the
+	// stream does not depend on that (property-unrelated) optimisation being there.
+	deadline := time.Now().Add(300 * time.Millisecond)
+	for nacache.VerifCachedWorkload(base.sc) == nil && time.Now().Before(deadline) {
 		time.Sleep(2 * time.Millisecond)
 	}
+	_, err := base.sc.GenerateSecret(security.WorkloadKeyCertResourceName)
+	must(err)
+	_, err = base.sc.GenerateSecret(security.RootCertReqResourceName)
+	must(err)
 	time.Sleep(20 * time.Millisecond)
 	base.takeEvents()
 	return s
@@ -106,7 +127,7 @@ func newSdsSUT(dir string) *sdsSUT {
 
 func (s *sdsSUT) close() {
 	for _, c := range s.clients {
-		if c.live {
+		if c.state == "live" {
 			c.cancel()
 			c.conn.Close()
 		}
@@ -119,100 +140,155 @@ func (s *sdsSUT) close() {
 	s.sut.close()
 }
 
+func (s *sdsSUT) describe(sec *tlsv3.Secret) (string, string) {
+	if c := sec.GetTlsCertificate(); c != nil {
+		return "w", fmt.Sprintf("key=%s,cert=%s", idTok(true, s.keyID(c.GetPrivateKey().GetInlineBytes())),
+			idTok(true, certID(c.GetCertificateChain().GetInlineBytes())))
+	}
+	if v := sec.GetValidationContext(); v != nil {
+		return "r", "root=" + lettersOrDash(v.GetTrustedCa().GetInlineBytes())
+	}
+	return "?", "other"
+}
+
 func (s *sdsSUT) subscribe(id int, res string) error {
-	name, ok := resName(res)
-	if !ok {
+	if res != "w" && res != "r" && res != "wr" {
 		return fmt.Errorf("bad resource")
 	}
-	var conn *grpc.ClientConn
-	var err error
-	deadline := time.Now().Add(30 * time.Second)
-	for {
-		conn, err = grpc.NewClient("passthrough:///"+s.socket, grpc.WithTransportCredentials(insecure.NewCredentials()),
-			grpc.WithContextDialer(func(ctx context.Context, _ string) (net.Conn, error) {
-				var d net.Dialer
-				return d.DialContext(ctx, "unix", s.socket)
-			}))
-		if err == nil {
-			break
-		}
-		if time.Now().After(deadline) {
-			return err
-		}
-		time.Sleep(10 * time.Millisecond)
+	conn, err := grpc.NewClient("passthrough:///"+s.socket, grpc.WithTransportCredentials(insecure.NewCredentials()),
+		grpc.WithContextDialer(func(ctx context.Context, _ string) (net.Conn, error) {
+			var d net.Dialer
+			return d.DialContext(ctx, "unix", s.socket)
+		}))
+	if err != nil {
+		return err
 	}
 	ctx, cancel := context.WithCancel(context.Background())
-	var stream sdsapi.SecretDiscoveryService_StreamSecretsClient
-	for {
-		stream, err = sdsapi.NewSecretDiscoveryServiceClient(conn).StreamSecrets(ctx)
-		if err == nil {
-			break
-		}
-		if time.Now().After(deadline) {
-			cancel()
-			return err
-		}
-		time.Sleep(10 * time.Millisecond)
+	stream, err := sdsapi.NewSecretDiscoveryServiceClient(conn).StreamSecrets(ctx)
+	if err != nil {
+		cancel()
+		return err
 	}
-	c := &sdsClient{id: id, res: res, cancel: cancel, conn: conn, live: true}
+	c := &sdsClient{id: id, res: res, cancel: cancel, conn: conn, stream: stream, state: "live"}
 	s.clients[id] = c
 	node := &core.Node{Id: fmt.Sprintf("sidecar~10.0.0.%d~c%d.verif~verif.svc.cluster.local", id+1, id)}
-	if err := stream.Send(&discovery.DiscoveryRequest{TypeUrl: sdsSecretType, ResourceNames: []string{name}, Node: node}); err != nil {
+	c.sendMu.Lock()
+	err = stream.Send(&discovery.DiscoveryRequest{TypeUrl: sdsSecretType, ResourceNames: c.names(), Node: node})
+	c.sendMu.Unlock()
+	if err != nil {
 		return err
 	}
 	go func() {
 		for {
 			resp, err := stream.Recv()
 			if err != nil {
+				c.mu.Lock()
+				if c.state == "live" {
+					c.state = "closed" // the server ended the stream
+				}
+				c.mu.Unlock()
 				return
 			}
-			desc := "empty"
+			// conformant client: ACK with the names it is subscribed to, before anything else is sent
+			c.sendMu.Lock()
+			c.mu.Lock()
+			names := c.names()
+			c.mu.Unlock()
+			if len(names) > 0 {
+				_ = stream.Send(&discovery.DiscoveryRequest{TypeUrl: sdsSecretType, ResourceNames: names,
+					VersionInfo: resp.VersionInfo, ResponseNonce: resp.Nonce})
+			}
+			c.sendMu.Unlock()
+			c.mu.Lock()
 			for _, r := range resp.Resources {
 				var sec tlsv3.Secret
 				if r.UnmarshalTo(&sec) == nil {
-					desc = s.describe(&sec)
+					switch kind, desc := s.describe(&sec); kind {
+					case "w":
+						c.lastW = desc
+					case "r":
+						c.lastR = desc
+					}
 				}
 			}
-			c.mu.Lock()
 			c.n++
-			c.last = desc
 			c.mu.Unlock()
-			// conformant client: ACK
-			_ = stream.Send(&discovery.DiscoveryRequest{TypeUrl: sdsSecretType, ResourceNames: []string{name},
-				VersionInfo: resp.VersionInfo, ResponseNonce: resp.Nonce})
 		}
 	}()
 	return nil
 }
 
-func (s *sdsSUT) counts() map[int]int {
-	m := map[int]int{}
+type sdsSnap struct {
+	n     int
+	state string
+}
+
+func (s *sdsSUT) snap() map[int]sdsSnap {
+	m := map[int]sdsSnap{}
 	for id, c := range s.clients {
 		c.mu.Lock()
-		m[id] = c.n
+		m[id] = sdsSnap{c.n, c.state}
 		c.mu.Unlock()
 	}
 	return m
 }
 
-// await waits until every live subscriber of an announced resource got a response newer than `before`.
-func (s *sdsSUT) await(before map[int]int, announced string) {
+func (c *sdsClient) wants(announced string) bool {
+	return (strings.Contains(c.res, "w") && strings.ContainsAny(announced, "Ww")) ||
+		(strings.Contains(c.res, "r") && strings.Contains(announced, "R"))
+}
+
+// settle waits until the callbacks of an op - and the callbacks caused by the re-requests they trigger -
+// have reached their subscribers: every client that was live at the start of the op must have received
+// one response per announced event it is subscribed to (plus the initial answer for a new client), or
+// have lost its stream.  Condition based (20 s deadline), then 100 ms for anything unexpected to show up.
+// Returns all callbacks in order.
+func (s *sdsSUT) settle(before map[int]sdsSnap, newID int) string {
+	all := ""
 	deadline := time.Now().Add(20 * time.Second)
-	for {
-		ok := true
-		now := s.counts()
+	quiet := 0
+	for quiet < 2 && time.Now().Before(deadline) {
+		if ev := s.takeEvents(); ev != "-" {
+			all += ev
+			quiet = 0
+		}
+		done := true
+		now := s.snap()
 		for id, c := range s.clients {
-			want := (c.res == "w" && strings.ContainsAny(announced, "Ww")) || (c.res == "r" && strings.Contains(announced, "R"))
-			if c.live && want && now[id] <= before[id] {
-				ok = false
+			want := 0
+			if id == newID {
+				want = 1
+			} else if before[id].state != "live" {
+				continue
+			}
+			c.mu.Lock()
+			res := c.res
+			c.mu.Unlock()
+			for _, e := range all {
+				if (strings.Contains(res, "w") && (e == 'W' || e == 'w')) || (strings.Contains(res, "r") && e == 'R') {
+					want++
+				}
+			}
+			if now[id].state == "live" && now[id].n < before[id].n+want {
+				done = false
 			}
 		}
-		if ok || time.Now().After(deadline) {
-			break
+		if done {
+			quiet++
+			time.Sleep(15 * time.Millisecond)
+		} else {
+			quiet = 0
+			time.Sleep(2 * time.Millisecond)
 		}
-		time.Sleep(2 * time.Millisecond)
 	}
 	time.Sleep(100 * time.Millisecond)
+	if ev := s.takeEvents(); ev != "-" {
+		all += ev
+	}
+	if all == "" {
+		return "-"
+	}
+	return all
 }
 
 func (s *sdsSUT) show(ev string) string {
@@ -225,11 +301,21 @@ func (s *sdsSUT) show(ev string) string {
 	for _, id := range ids {
 		c := s.clients[id]
 		c.mu.Lock()
-		st := "live"
-		if !c.live {
-			st = "gone"
+		res := c.res
+		if res == "" {
+			res = "-"
 		}
-		parts = append(parts, fmt.Sprintf("c%d:%s:%s:n=%d:%s", id, c.res, st, c.n, c.last))
+		last := c.lastW
+		if c.lastR != "" {
+			if last != "" {
+				last += "|"
+			}
+			last += c.lastR
+		}
+		if last == "" {
+			last = "-"
+		}
+		parts = append(parts, fmt.Sprintf("c%d:%s:%s:n=%d:%s", id, res, c.state, c.n, last))
 		c.mu.Unlock()
 	}
 	wl := "-"
@@ -241,7 +327,8 @@ func (s *sdsSUT) show(ev string) string {
 }
 
 func (s *sdsSUT) op(t []string) string {
-	before := s.counts()
+	before := s.snap()
+	newID := -1
 	switch t[0] {
 	case "sub":
 		if len(t) != 3 {
@@ -254,22 +341,35 @@ func (s *sdsSUT) op(t []string) string {
 		if err := s.subscribe(id, t[2]); err != nil {
 			return "sub-error"
 		}
-		before[id] = 0
-		// the first answer is owed to this client whatever was announced
-		deadline := time.Now().Add(60 * time.Second)
-		for s.counts()[id] == 0 && time.Now().Before(deadline) {
-			time.Sleep(2 * time.Millisecond)
+		newID = id // the first answer is owed to this client whatever was announced (or the stream ends: failing CA)
+	case "unsub":
+		if len(t) != 2 {
+			return "bad-op"
 		}
+		id, err := strconv.Atoi(t[1])
+		c := s.clients[id]
+		if err != nil || c == nil || c.state != "live" || c.res == "" {
+			return "bad-op"
+		}
+		c.sendMu.Lock()
+		c.mu.Lock()
+		c.res = ""
+		c.mu.Unlock()
+		_ = c.stream.Send(&discovery.DiscoveryRequest{TypeUrl: sdsSecretType, ResourceNames: nil})
+		c.sendMu.Unlock()
+		time.Sleep(30 * time.Millisecond) // let the server process it (requests have priority over pushes)
 	case "drop":
 		if len(t) != 2 {
 			return "bad-op"
 		}
 		id, err := strconv.Atoi(t[1])
 		c := s.clients[id]
-		if err != nil || c == nil || !c.live {
+		if err != nil || c == nil || c.state != "live" {
 			return "bad-op"
 		}
-		c.live = false
+		c.mu.Lock()
+		c.state = "gone"
+		c.mu.Unlock()
 		c.cancel()
 		c.conn.Close()
 		time.Sleep(20 * time.Millisecond)
@@ -279,7 +379,7 @@ func (s *sdsSUT) op(t []string) string {
 		}
 		cur := -1
 		if w := nacache.VerifCachedWorkload(s.sc); w != nil {
-			cur = s.q.len() - 1 // every CA call stores and schedules: the cached certificate's task is the last one
+			cur = s.q.len() - 1 // every successful CA call stores and schedules: the cached certificate's task is the last one
 		}
 		k := cur
 		if t[0] == "firestale" {
@@ -304,16 +404,29 @@ func (s *sdsSUT) op(t []string) string {
 			b = []byte(strings.Join(bundlePEMs(t[1]), ""))
 		}
 		_ = s.sc.UpdateConfigTrustBundle(b)
+	case "cafail":
+		if len(t) != 2 {
+			return "bad-op"
+		}
+		k, err := strconv.Atoi(t[1])
+		if err != nil || k < 0 || k > 100 {
+			return "bad-op"
+		}
+		s.failN = k
+	case "caroot":
+		if len(t) != 2 || len(t[1]) != 1 || t[1][0] < 'A' || t[1][0] >= 'A'+nRoots {
+			return "bad-op"
+		}
+		s.signer = t[1][0]
 	default:
 		return "bad-op"
 	}
-	ev := s.takeEvents()
-	s.await(before, ev)
-	ev2 := s.takeEvents() // callbacks caused by the re-requests (none expected: the CA root never changes here)
-	if ev2 != "-" {
-		ev += "+" + ev2
+	t0 := time.Now()
+	r := s.show(s.settle(before, newID))
+	if d := time.Since(t0); d > 2*time.Second && os.Getenv("C18_SDS_SLOW") != "" {
+		fmt.Fprintf(os.Stderr, "slow op %v: %s -> %s\n", d, join(t), r)
 	}
-	return s.show(ev)
+	return r
 }
 
 func genSds(seed uint64, n int, path string) {
@@ -324,41 +437,61 @@ func genSds(seed uint64, n int, path string) {
 		r := root.Fork()
 		out.Line("case", strconv.Itoa(i), "sds")
 		next := 0
-		var liveW, liveR []int
+		live := map[int]string{} // live clients and what they are subscribed to
+		nW := func() int {
+			k := 0
+			for _, v := range live {
+				if strings.Contains(v, "w") {
+					k++
+				}
+			}
+			return k
+		}
+		pick := func(pred func(string) bool) int {
+			var ids []int
+			for id, v := range live {
+				if pred(v) {
+					ids = append(ids, id)
+				}
+			}
+			if len(ids) == 0 {
+				return -1
+			}
+			sort.Ints(ids)
+			return ids[r.Intn(len(ids))]
+		}
 		cfg := "-"
-		nops := 3 + r.Intn(8)
+		failing := false
+		nops := 3 + r.Intn(9)
 		for k := 0; k < nops; k++ {
-			switch x := r.Intn(10); {
-			case x < 4 && next < 5:
-				res := "w"
-				if r.Chance(2, 5) {
-					res = "r"
-				}
+			switch x := r.Intn(20); {
+			case x < 7 && next < 5:
+				res := wire.Pick(r, []string{"w", "w", "r", "r", "wr"})
 				out.Line("sub", strconv.Itoa(next), res)
-				if res == "w" {
-					liveW = append(liveW, next)
-				} else {
-					liveR = append(liveR, next)
+				if failing {
+					failing = false // the initial request consumed the failure (if the cache was empty) ...
+					// ... or not: either way stop tracking, no further failure-dependent op is generated
 				}
+				live[next] = res
 				next++
-			case x < 5 && len(liveW)+len(liveR) > 0:
-				if len(liveW) > 0 && (len(liveR) == 0 || r.Chance(1, 2)) {
-					j := r.Intn(len(liveW))
-					out.Line("drop", strconv.Itoa(liveW[j]))
-					liveW = append(liveW[:j], liveW[j+1:]...)
-				} else {
-					j := r.Intn(len(liveR))
-					out.Line("drop", strconv.Itoa(liveR[j]))
-					liveR = append(liveR[:j], liveR[j+1:]...)
-				}
-			case x < 8:
-				out.Line("rotate")
 			case x < 9:
+				if id := pick(func(v string) bool { return v != "" }); id >= 0 {
+					out.Line("unsub", strconv.Itoa(id))
+					live[id] = ""
+				}
+			case x < 10:
+				if id := pick(func(string) bool { return true }); id >= 0 {
+					out.Line("drop", strconv.Itoa(id))
+					delete(live, id)
+				}
+			case x < 14:
+				out.Line("rotate")
+			case x < 15:
 				out.Line("firestale")
-			default:
+			case x < 16:
 				// whether a ROOTCA subscriber re-requests before or after the cache is emptied is a race of
 				// the real system; with a live default subscriber the outcome is the same either way
-				if len(liveW) == 0 {
+				if nW() == 0 {
 					out.Line("rotate")
 					break
 				}
@@ -368,6 +501,21 @@ func genSds(seed uint64, n int, path string) {
 				}
 				cfg = b
 				out.Line("bundle", b)
+			case x < 18:
+				out.Line("caroot", string(rune('A'+r.Intn(nRoots))))
+			default:
+				// a failing re-request ends the subscriber's stream; which of several concurrent re-requests
+				// meets the failure is a race, so: exactly one default subscriber
+				if nW() == 1 && !failing {
+					out.Line("cafail", "1")
+					out.Line("rotate")
+					k++
+					// that subscriber's stream is ended by the server
+					id := pick(func(v string) bool { return strings.Contains(v, "w") })
+					delete(live, id)
+				} else {
+					out.Line("rotate")
+				}
 			}
 		}
 	}
@@ -468,6 +616,7 @@ func oracleSdsCase(lines [][]string, dir string) []string {
 		}
 	}()
 	verdict := ""
+	lastRoots := "A" // the warm-up response
 	fail := func(clause string, t []string, extra string) {
 		if verdict == "" {
 			verdict = clause + " " + wire.Enc(join(t)) + " " + wire.Enc(extra)
@@ -496,46 +645,72 @@ func oracleSdsCase(lines [][]string, dir string) []string {
 					fail("crash", t, fmt.Sprint(e))
 				}
 			}()
-			before := s.counts()
+			before := s.snap()
 			calls0 := s.ca.calls()
+			fail0 := s.failN
 			line := s.op(t)
 			if strings.HasSuffix(line, "-error") || line == "bad-op" {
 				return
 			}
-			ev := strings.TrimPrefix(strings.Fields(line)[0], "ev=")
+			ev := strings.ReplaceAll(strings.TrimPrefix(strings.Fields(line)[0], "ev="), "+", "")
 			if strings.Contains(ev, "w") {
 				fail("notify-before-clear", t, ev)
 			}
-			if s.ca.calls()-calls0 > 1 {
-				fail("single-flight-calls", t, fmt.Sprint(s.ca.calls()-calls0))
+			failed := 0
+			if t[0] != "cafail" && fail0 > s.failN {
+				failed = fail0 - s.failN
 			}
-			cur := "none"
+			dc := s.ca.calls() - calls0
+			if dc > 1+failed {
+				fail("single-flight-calls", t, fmt.Sprint(dc))
+			}
+			cur, curRoots := "none", ""
 			if w := nacache.VerifCachedWorkload(s.sc); w != nil {
 				cur = fmt.Sprintf("key=%s,cert=%s", idTok(true, s.keyID(w.PrivateKey)), idTok(true, certID(w.CertificateChain)))
+				if id := certID(w.CertificateChain); id >= 0 && id < len(s.ca.recs) {
+					curRoots = s.ca.recs[id].roots
+				}
+			}
+			// a CA response with a root different from the previous response's must be announced
+			if dc > 0 {
+				for _, rec := range s.ca.recs[calls0:] {
+					if rec.out.kind != "ok" {
+						continue
+					}
+					if lastRoots != "" && rec.roots != lastRoots && !strings.Contains(ev, "R") {
+						fail("root-unannounced", t, lastRoots+"->"+rec.roots)
+					}
+					lastRoots = rec.roots
+				}
 			}
 			cfg := lettersOrDash(nacache.VerifConfigTrustBundle(s.sc))
-			now := s.counts()
+			now := s.snap()
 			for id, c := range s.clients {
 				c.mu.Lock()
-				last := c.last
+				lastW, lastR, res := c.lastW, c.lastR, c.res
 				c.mu.Unlock()
 				isNew := t[0] == "sub" && strconv.Itoa(id) == t[1]
-				announced := (c.res == "w" && strings.ContainsAny(ev, "Ww")) || (c.res == "r" && strings.Contains(ev, "R"))
+				wasLive := before[id].state == "live" || isNew
+				pushed := now[id].n > before[id].n
+				wantW := strings.Contains(res, "w") && (strings.ContainsAny(ev, "Ww") || isNew)
+				wantR := strings.Contains(res, "r") && (strings.Contains(ev, "R") || isNew)
 				switch {
-				case !c.live && now[id] != before[id] && !(t[0] == "drop" && strconv.Itoa(id) == t[1]):
+				case !wasLive && pushed:
 					fail("push-to-closed-stream", t, fmt.Sprint(id))
-				case c.live && (announced || isNew) && now[id] <= before[id]:
-					fail("subscriber-not-pushed", t, fmt.Sprintf("c%d:%s", id, c.res))
-				case c.live && !announced && !isNew && now[id] != before[id]:
-					fail("unrequested-push", t, fmt.Sprintf("c%d:%s", id, c.res))
+				case wasLive && now[id].state == "closed" && failed == 0:
+					fail("stream-ended-by-server", t, fmt.Sprintf("c%d:%s", id, res))
+				case wasLive && now[id].state == "live" && (wantW || wantR) && !pushed:
+					fail("subscriber-not-pushed", t, fmt.Sprintf("c%d:%s", id, res))
+				case wasLive && !(wantW || wantR) && pushed && !(t[0] == "drop" && strconv.Itoa(id) == t[1]):
+					fail("unrequested-push", t, fmt.Sprintf("c%d:%s", id, res)) // e.g. after an xDS unsubscribe
 				}
-				if c.live && (announced || isNew) && now[id] > before[id] {
-					if c.res == "w" && last != cur {
-						fail("subscriber-stale-cert", t, fmt.Sprintf("c%d has %s, cached %s", id, last, cur))
+				if wasLive && now[id].state == "live" && pushed && cur != "none" {
+					if wantW && lastW != cur {
+						fail("subscriber-stale-cert", t, fmt.Sprintf("c%d has %s, cached %s", id, lastW, cur))
 					}
-					if c.res == "r" {
-						got := strings.TrimPrefix(last, "root=")
-						want := "A"
+					if wantR {
+						got := strings.TrimPrefix(lastR, "root=")
+						want := curRoots
 						if cfg != "-" {
 							want += cfg
 						}
